@@ -19,17 +19,23 @@ def decodeExact (size : Nat) (text : Bytes) : Option Bytes :=
     let b := bytesOfBits size (bits.take (8 * size))
     if b.length = size ∧ b32NoPad b = text then some b else none
 
-/-- first position `p ≤ limit - |w|` with `stream[p, p+|w|) = w` -/
-def findWindow : Nat → Nat → Bytes → Bytes → Option Nat
-  | 0, _, _, _ => none
-  | fuel + 1, p, stream, w =>
-    if stream.length < w.length then none
-    else if w.isPrefixOf stream then some p
-    else match stream with
-      | [] => none
-      | _ :: rest => findWindow fuel (p + 1) rest w
-
 def overlaps (a b : Nat × Nat) : Bool := a.1 < b.1 + b.2 && b.1 < a.1 + a.2
+
+/-- first position `p` with `stream[p, p+|w|) = w` whose window is disjoint from the windows already used; the second
+component tells whether `w` occurs at all (so that "not from the source" and "used twice" can be told apart) -/
+def findWindow : Nat → Nat → Bytes → Bytes → List (Nat × Nat) → Bool → Option Nat × Bool
+  | 0, _, _, _, _, seen => (none, seen)
+  | fuel + 1, p, stream, w, used, seen =>
+    if stream.length < w.length then (none, seen)
+    else if w.isPrefixOf stream then
+      if used.any (overlaps (p, w.length)) then
+        (match stream with
+          | [] => (none, true)
+          | _ :: rest => findWindow fuel (p + 1) rest w used true)
+      else (some p, true)
+    else match stream with
+      | [] => (none, seen)
+      | _ :: rest => findWindow fuel (p + 1) rest w used seen
 
 /-- the verdict: "ok", or the first clause that fails -/
 def judgeRandom (stream : Bytes) (limit : Nat) (outs : List (Nat × Option Bytes)) : String :=
@@ -46,11 +52,10 @@ def judgeRandom (stream : Bytes) (limit : Nat) (outs : List (Nat × Option Bytes
         match decodeExact size text with
         | none => s!"violation call#{i} not-the-unpadded-base32-of-{size}-bytes"
         | some b =>
-          match findWindow (src.length + 1) 0 src b with
-          | none => s!"violation call#{i} bytes-not-taken-from-the-source"
-          | some p =>
-            if used.any (overlaps (p, size)) then s!"violation call#{i} source-bytes-reused"
-            else go (i + 1) rest ((p, size) :: used)
+          match findWindow (src.length + 1) 0 src b used false with
+          | (none, false) => s!"violation call#{i} bytes-not-taken-from-the-source"
+          | (none, true) => s!"violation call#{i} source-bytes-reused"
+          | (some p, _) => go (i + 1) rest ((p, size) :: used)
   go 0 outs []
 
 end OtpVerif.Spec
